@@ -212,6 +212,32 @@ func init() {
 		}
 		k(st, res)
 	}
+	// slices.Clone(s): nil for nil, otherwise a fresh backing array holding the same element values (a shallow copy).
+	libSpecs["slices.Clone"] = func(e *Engine, st *State, fn *ssa.Function, args []Val, pos token.Pos, k Kont) {
+		tb := e.tb
+		sT, ok := fn.Signature.Params().At(0).Type().Underlying().(*types.Slice)
+		if !ok {
+			panic(e.unsupported("slices.Clone of " + fn.Signature.Params().At(0).Type().String()))
+		}
+		elT := sT.Elem()
+		s := e.materialiseIfSlice(st, args[0], sT)
+		res := e.allocSlice(st, elT, s.slLen(), s.slLen())
+		for _, l := range Leaves(elT) {
+			cl := e.elemClass(elT, "", l)
+			h := e.H(st, cl, ArrOf(ArrOf(l.Sort)))
+			src := tb.Select(h, s.slArr())
+			nr := tb.Fresh("clone_row", ArrOf(l.Sort))
+			i := tb.BoundVar("i", SInt)
+			e.assume(st, tb.Forall([]*Term{i}, tb.Implies(tb.And(tb.Le(tb.Int(0), i), tb.Lt(i, s.slLen())), tb.Eq(tb.Select(nr, i), tb.Select(src, tb.Idx(s.slOff(), i)))), []*Term{tb.Select(nr, i)}))
+			e.setH(st, cl, tb.Store(h, res.slArr(), nr))
+		}
+		isNil := tb.Eq(s.slArr(), tb.Int(0))
+		out := Val{T: make([]*Term, 4)}
+		for j := range out.T {
+			out.T[j] = tb.Ite(isNil, tb.Int(0), res.T[j])
+		}
+		k(st, out)
+	}
 	// math.Ceil(float64(n)/c): the only float expression on the codec paths (mask length of sparse signatures).
 	libSpecs["math.Ceil"] = func(e *Engine, st *State, fn *ssa.Function, args []Val, pos token.Pos, k Kont) {
 		a := args[0].T[0]
